@@ -12,6 +12,8 @@ CONSTANTS
   TauTok = 100
   TauBelow = 2
   CopyOnStore = TRUE
+  KeyHasNf = TRUE
+  TrivialDec = FALSE
 INIT Init
 NEXT Next
 INVARIANT C17_HistoryFree
